@@ -1044,6 +1044,11 @@ class IoChan(Engine):
         if outcome[0] != "ret":
             self._no_partial(st, outcome[0], consumer, target, tsnap, tags)
             return
+        structural = exp.get("why") in ("unmatched_value_columns", "missing_dim_column")
+        if structural and fired["truncate"] != "boundary":
+            # the cells of a torn line can read like the items of a dimension that has no named column ("0.1" cut to "0"): the column
+            # structure seen by the importer is then another one, and the property's exclusion (values mistaken for items) applies
+            return
         if exp["mode"] == "raise" and exp["why"] in ("duplicate", "unknown_item", "unmatched_value_columns", "missing_dim_column"):
             # the torn line cannot cure a fault that the complete lines already carry
             raise Violation("refuses-bad-data", f"a truncated file whose complete lines carry a fault of class '{exp['why']}' was imported "
